@@ -8,6 +8,7 @@ import (
 	"strconv"
 	"strings"
 	"testing"
+	"time"
 
 	"github.com/wokdav/gopki/generator/cert"
 	"github.com/wokdav/gopki/generator/config"
@@ -273,6 +274,17 @@ func checkC20Cell(c c20Cell) *core.Failure {
 		// only a start date: the default lifetime carries the end beyond year 9999
 		sub.Validity = &core.Validity{From: "9997-06-01"}
 		root.Validity = &core.Validity{From: "9999-12-31"}
+	case "year-bounds-east", "year-bounds-west":
+		// the first and the last day X.509 can express, in a zone far from UTC (local midnight is another day, even another year, in UTC)
+		sub.Validity = &core.Validity{From: "0000-01-01", Until: "0001-01-01"}
+		root.Validity = &core.Validity{From: "0000-01-01", Until: "9999-12-31"}
+		old := time.Local
+		defer func() { time.Local = old }()
+		if c.Config == "year-bounds-east" {
+			time.Local = time.FixedZone("verif-east", 14*3600)
+		} else {
+			time.Local = time.FixedZone("verif-west", -12*3600)
+		}
 	}
 	w := World{Ents: []core.Entity{root, sub}}
 	if c20Good.rootCert == nil {
@@ -446,7 +458,7 @@ func fuzzSeedsPem() [][]byte {
 func TestC20(t *testing.T) {
 	r := core.Start(t, "C20")
 	defer r.Finish()
-	r.Rule = "(1) hostile substitution: a schema-valid certificate config (subject, validity, unique ids, 0-6 extensions of all kinds incl. admission, manipulations) or profile from the C06/C07/C16 generators is rendered as a document, ONE scalar slot is replaced by a value from a pool of ~90 hostile values or removed together with its key / list element (over-long and malformed OIDs, 40-digit integers, impossible dates, absurd durations, broken base64, wrong JSON types, empty and 64 KiB strings, NUL/BOM, #hex subject values, YAML anchors/aliases/merge keys/tags), and the directory (root + mutated entity + child) is opened, planned and signed under four strategies. (2) exhaustive product: root and subordinate artifact state in {absent, cert+key, cert+CSR, key only, cert only, garbage, #HASH marker mid-file, truncated block, hash only, cert+unusable key, empty, cert+zero-padded key scalar, cert+stripped key scalar, over-long / short / malformed stored hash, cert+SEC1 key block} x 32 strategies x config in {plain, validity beyond year 9999 by duration, by a late from date alone, expired}. (3) raw bytes: random and mutated bytes as .yaml/.json and .pem contents in-process; in the thorough tier additionally three native coverage-guided go-fuzz campaigns (config bytes, pem bytes, config+pem pair) seeded from the repository's examples. Oracle: every entry point runs under recover(); a panic is a violation; an unrepresentable OID in any OID slot must not lead to an issued certificate. Non-trivial = substitution that still parses as YAML with a version key, or a cell that reaches signing, or bytes containing a PEM armour line / version key; distinct by input."
+	r.Rule = "(1) hostile substitution: a schema-valid certificate config (subject, validity, unique ids, 0-6 extensions of all kinds incl. admission, manipulations) or profile from the C06/C07/C16 generators is rendered as a document, ONE scalar slot is replaced by a value from a pool of ~90 hostile values or removed together with its key / list element (over-long and malformed OIDs, 40-digit integers, impossible dates, absurd durations, broken base64, wrong JSON types, empty and 64 KiB strings, NUL/BOM, #hex subject values, YAML anchors/aliases/merge keys/tags), and the directory (root + mutated entity + child) is opened, planned and signed under four strategies. (2) exhaustive product: root and subordinate artifact state in {absent, cert+key, cert+CSR, key only, cert only, garbage, #HASH marker mid-file, truncated block, hash only, cert+unusable key, empty, cert+zero-padded key scalar, cert+stripped key scalar, over-long / short / malformed stored hash, cert+SEC1 key block} x 32 strategies x config in {plain, validity beyond year 9999 by duration, by a late from date alone, expired, first/last expressible day under a local zone of +14:00 / -12:00}. (3) raw bytes: random and mutated bytes as .yaml/.json and .pem contents in-process; in the thorough tier additionally three native coverage-guided go-fuzz campaigns (config bytes, pem bytes, config+pem pair) seeded from the repository's examples. Oracle: every entry point runs under recover(); a panic is a violation; an unrepresentable OID in any OID slot must not lead to an issued certificate. Non-trivial = substitution that still parses as YAML with a version key, or a cell that reaches signing, or bytes containing a PEM armour line / version key; distinct by input."
 	r.Assumptions = []string{"errors, skipped files and successful runs are all acceptable outcomes; only panics (and issued certificates for unrepresentable OIDs) fail", "native fuzzing cannot be seeded; its saved crasher is the reproducible unit"}
 	wrapSubst := func(c c20Subst) *core.Failure {
 		key := ""
@@ -482,7 +494,7 @@ func TestC20(t *testing.T) {
 	// (2) exhaustive product
 	i := 0
 	r.Exhaustive = false
-	for _, cfg := range []string{"plain", "huge-duration", "past", "late-from"} {
+	for _, cfg := range []string{"plain", "huge-duration", "past", "late-from", "year-bounds-east", "year-bounds-west"} {
 		for _, rs := range c20States {
 			for _, ss := range c20States {
 				for strat := 0; strat < 32; strat++ {
